@@ -5,6 +5,7 @@ import (
 	"github.com/nyaruka/goflow/assets"
 	"github.com/nyaruka/goflow/contactql"
 	"github.com/nyaruka/goflow/envs"
+	"github.com/nyaruka/goflow/excellent/types"
 	"github.com/nyaruka/goflow/flows"
 	"github.com/nyaruka/goflow/flows/actions"
 	"github.com/nyaruka/goflow/flows/definition"
@@ -12,6 +13,7 @@ import (
 	"github.com/nyaruka/goflow/flows/routers/waits"
 	"github.com/nyaruka/goflow/flows/triggers"
 	"github.com/nyaruka/goflow/zzverif"
+	"time"
 )
 
 // VerifC09_SharedAssets: one set of session assets — two flows (actions that
@@ -102,4 +104,43 @@ func VerifC09_SharedAssets() {
 		zzverif.Assert(err == nil && sess.Status() == flows.SessionStatusCompleted, "session did not complete")
 		zzverif.Cover("resumed")
 	})
+}
+
+// VerifC09_SessionsIndependent: two sessions over the same session assets —
+// a query based group whose date condition reads differently under the two
+// sessions' environments (joined > 03-04-2020 day-first / month-first) —
+// started one after the other in either order: each contact ends up in the
+// group exactly when the query matches under its own session's environment,
+// as it would if its session ran alone (whatever an earlier session left
+// behind in the shared assets).
+// cover: day-first-then-month-first, month-first-then-day-first
+func VerifC09_SessionsIndependent() {
+	dayFirst := envs.NewBuilder().WithDateFormat(envs.DateFormatDayMonthYear).Build()
+	monthFirst := envs.NewBuilder().WithDateFormat(envs.DateFormatMonthDayYear).Build()
+	sa := verifNewAssets()
+	sa.fields = flows.NewFieldAssets([]assets.Field{&verifFieldAsset{"joined", assets.FieldTypeDatetime}})
+	g := flows.VerifQueryGroup(dayFirst, sa.fields, "b0000000-0000-4000-8000-000000000001", "Late", contactql.NewCondition(contactql.PropertyTypeField, "joined", contactql.OpGreaterThan, "03-04-2020"))
+	zzverif.Assert(g != nil, "setup: query group did not validate")
+	var groups []*flows.Group
+	sa.groups, groups = flows.VerifGroupAssets(dayFirst, sa.fields, g)
+	sa.add(verifFlowOf(0, verifPlainNodeWithActions(0, 0, -1, actions.NewSetContactName("a1", "Ann"))))
+	eng := verifEngine(10, 10)
+	order := []envs.Environment{dayFirst, monthFirst}
+	if zzverif.Choice("month-first-session-first", 2) == 1 {
+		order = []envs.Environment{monthFirst, dayFirst}
+		zzverif.Cover("month-first-then-day-first")
+	} else {
+		zzverif.Cover("day-first-then-month-first")
+	}
+	for _, env := range order {
+		contact := flows.NewEmptyContact(sa, "Bob", "eng", nil)
+		joined := time.Date(2020, 3, 15, 12, 0, 0, 0, time.UTC) // after the fourth of March, before the third of April
+		contact.Fields().Set(sa.fields.Get("joined"), flows.NewValue(types.NewXText("2020-03-15T12:00:00Z"), types.NewXDateTime(joined), nil, "", "", ""))
+		trig := triggers.NewBuilder(env, assets.NewFlowReference(verifFlowUUID(0), "F0"), contact).Manual().Build()
+		sess, _, err := eng.NewSession(sa, trig)
+		zzverif.Assert(err == nil, "setup: session did not start")
+		in := sess.Contact().Groups().FindByUUID(groups[0].UUID()) != nil
+		want := env == monthFirst // 15 March is after 4 March (month-first reading) and before 3 April (day-first reading)
+		zzverif.Assert(in == want, "a session's contact is not in the query based group it would be in if the session ran alone")
+	}
 }
